@@ -1,5 +1,6 @@
 import GT.Model.Factor
 import GT.Bridge.RealInst
+import GT.Bridge.Inv
 /-!
 # C01 — multiplying a measure by a conjugate factor is pointwise multiplication
 
@@ -157,9 +158,8 @@ theorem C01_measure_product (be : Backend ℝ) (m : MeasureB R D ℝ) (x : Vec D
     cases hc : m.cov with
     | none => simp [MeasureB.toB, MeasureB.mk0, MeasureB.toFactor, Factor.product, Factor.toB]
     | some c =>
-      simp only [MeasureB.prepare, MeasureB.mk0, MeasureB.computeLnZ, MeasureB.computeMu,
-        MeasureB.ensureCov, MeasureB.invertLambda]
-      simp [MeasureB.toB, MeasureB.toFactor, Factor.product, Factor.toB]
+      simp only [MeasureB.toB, prepare_Lambda, prepare_nu, prepare_lnBeta]
+      simp [MeasureB.mk0, MeasureB.toFactor, Factor.product, Factor.toB, MeasureB.toB]
   have := C01_factor_product m.toFactor x
   simp only [Factor.evalLn] at this
   simp only [MeasureB.evalLn, key, this]
